@@ -208,7 +208,7 @@ func (vc *VC) exec(rs *runState, ins ssa.Instruction) {
 	case *ssa.Store:
 		p := vc.val(ins.Addr)
 		vc.oblige("safety.nil", pc, sNot(sEq(p.C[0], "0")), ins.Pos(), "nil pointer dereference (store)")
-		vc.checkFrame(p.C[0], ins.Pos(), layoutOf(ins.Val.Type()))
+		vc.checkFrameAt(p.C[0], p.C[1], ins.Pos())
 		v := vc.val(ins.Val)
 		if v.K == KPtr && v.C[0] == "0" {
 			if k, _, _ := scalarKind(ins.Val.Type()); k != KPtr {
